@@ -26,7 +26,12 @@ import (
 	"github.com/plgd-dev/go-coap/v3/udp"
 	udpclient "github.com/plgd-dev/go-coap/v3/udp/client"
 
+	"github.com/plgd-dev/go-coap/v3/message"
+	"github.com/plgd-dev/go-coap/v3/message/codes"
+
+	"verifharness/internal/conns"
 	"verifharness/internal/hooks"
+	"verifharness/internal/memnet"
 	"verifharness/internal/rec"
 )
 
@@ -328,11 +333,111 @@ func runServerStop(transport, order string, nClients int) SrvRec {
 	return r
 }
 
+// FloodRec: a client connection whose handler is busy while the peer keeps sending, so that the receive queue is full
+// and the connection's reader is parked handing the next message over; then the connection is closed from several
+// goroutines. The reader must notice (Cancel!ReaderParked), shutdown must run: done signal, every callback once.
+type FloodRec struct {
+	Op        string `json:"flood"`
+	Transport string `json:"transport"`
+	QSize     int    `json:"qsize"`
+	Busy      bool   `json:"busy"` // the handler was entered and is blocked (steering succeeded)
+	Done      bool   `json:"done"`
+	OnClose   []int  `json:"onclose"`
+	Panics    int    `json:"panics"`
+}
+
+func runFlood(transport string, qsize int) FloodRec {
+	r := FloodRec{Op: "close", Transport: transport, QSize: qsize, OnClose: []int{}}
+	release := make(chan struct{})
+	defer close(release)
+	var entered atomic.Int64
+	counts := make([]atomic.Int64, 3)
+	var doneCh <-chan struct{}
+	var closeFn func() error
+	var cleanup func()
+	switch transport {
+	case "udp":
+		peer, err := net.ListenUDP("udp4", &net.UDPAddr{IP: net.IPv4(127, 0, 0, 1)})
+		if err != nil {
+			rec.Die("listen: %v", err)
+		}
+		cc, err := udp.Dial(peer.LocalAddr().String(), options.WithReceivedMessageQueueSize(qsize), options.WithErrors(func(error) {}),
+			options.WithHandlerFunc(func(*responsewriter.ResponseWriter[*udpclient.Conn], *pool.Message) { entered.Add(1); <-release }))
+		if err != nil {
+			rec.Die("dial: %v", err)
+		}
+		for i := range counts {
+			i := i
+			cc.AddOnClose(func() { counts[i].Add(1) })
+		}
+		to := cc.LocalAddr().(*net.UDPAddr)
+		for k := 0; k < qsize+6; k++ {
+			_, _ = peer.WriteToUDP(memnetBuild(k), to)
+			time.Sleep(200 * time.Microsecond)
+		}
+		doneCh, closeFn, cleanup = cc.Done(), cc.Close, func() { _ = cc.Close(); _ = peer.Close() }
+	default:
+		t := conns.NewTCP(func(cfg *tcpclient.Config) {
+			cfg.ReceivedMessageQueueSize = qsize
+			cfg.Handler = func(*responsewriter.ResponseWriter[*tcpclient.Conn], *pool.Message) { entered.Add(1); <-release }
+		})
+		for i := range counts {
+			i := i
+			t.CC.AddOnClose(func() { counts[i].Add(1) })
+		}
+		t.Stream.Feed(conns.Frame(int(codes.CSM), []byte{1}, nil, nil))
+		for k := 0; k < qsize+6; k++ {
+			t.Stream.Feed(conns.Frame(int(codes.GET), []byte{0xF1, byte(k)}, message.Options{{ID: message.URIPath, Value: []byte("hang")}}, nil))
+		}
+		doneCh, closeFn, cleanup = t.CC.Done(), t.CC.Close, t.Close
+	}
+	defer cleanup()
+	r.Busy = hooks.WaitFor(wd, func() bool { return entered.Load() >= 1 })
+	time.Sleep(5 * time.Millisecond) // the queue fills up, the reader parks
+	var wg sync.WaitGroup
+	var mu sync.Mutex
+	for g := 0; g < 3; g++ {
+		wg.Add(1)
+		go func() {
+			defer wg.Done()
+			defer func() {
+				if recover() != nil {
+					mu.Lock()
+					r.Panics++
+					mu.Unlock()
+				}
+			}()
+			_ = closeFn()
+		}()
+	}
+	wg.Wait()
+	r.Done = hooks.WaitFor(wd, func() bool {
+		select {
+		case <-doneCh:
+			return true
+		default:
+			return false
+		}
+	})
+	time.Sleep(2 * time.Millisecond)
+	for i := range counts {
+		r.OnClose = append(r.OnClose, int(counts[i].Load()))
+	}
+	return r
+}
+
+func memnetBuild(k int) []byte {
+	return memnet.Build(message.NonConfirmable, int(codes.GET), int32(0x3000+k), []byte{0xF0, byte(k)}, message.Options{{ID: message.URIPath, Value: []byte("hang")}}, nil)
+}
+
 // RunServers executes the server scenarios.
 func RunServers(out string, rounds int) {
 	w := rec.Create(out)
 	defer w.Close()
 	for round := 0; round < rounds; round++ {
+		for _, tr := range []string{"udp", "tcp"} {
+			w.Put(runFlood(tr, []int{1, 2, 16}[round%3]))
+		}
 		for _, tr := range []string{"udp", "tcp", "dtls", "tls"} {
 			for _, order := range []string{"stop-first", "clients-first"} {
 				w.Put(runServerStop(tr, order, 1+round%3))
